@@ -10,6 +10,7 @@ import flow
 import gen
 import mockca
 import vlib
+from ext import keychange
 
 FINISH = dict(
     level="proof",
@@ -29,7 +30,10 @@ FINISH = dict(
          "other recoverable retries, contact updates, key roll-overs between key-type pairs (quick: 6 pairs, "
          "thorough: all 49), external account binding; every POST of every flow (and the inner key-change and "
          "EAB objects) becomes one record judged by Spec.C04.holds; the nonce ledger is per server. "
-         "non-trivial = every JWS.",
+         "non-trivial = every JWS. (iii) py/ext/keychange.py: every POST of (ii) compared (destination, protected "
+         "header text, predicted payloads, inner objects) with the call-site table Model.PostBind.siteOf, every key "
+         "roll-over request (inner header, inner payload, flattened inner JWS, outer header; who signs which layer) "
+         "with Model.KeyChange.prepare / outerFor.",
 )
 
 KT = ["rsa2048", "ecdsa_p256", "ecdsa_p384", "ecdsa_p521", "ed25519", "ed448", "rsa4096"]
@@ -125,7 +129,12 @@ def records_of(ca_log):
                "sig_ok": bool(r.get("sig_ok")), "sig_len": r.get("sig_len", 0), "_src": r}
         out.append(rec)
         if "inner" in r:
-            out.append(dict(r["inner"], kind="keyChangeInner", nonce_issued=True, nonce_reused=False, kid_ok=True, _src=r))
+            # the inner object binds the roll-over to THIS account and to the key the server holds
+            # (RFC 8555 §7.3.5 `account` / `oldKey`): judged through the binding clauses of the record
+            inner = dict(r["inner"], kind="keyChangeInner", nonce_issued=True, nonce_reused=False,
+                         kid_ok=bool(r.get("inner_account_ok", True)), _src=r)
+            inner["sig_ok"] = bool(inner.get("sig_ok")) and bool(r.get("old_key_matches_record", True))
+            out.append(inner)
         if "eab" in r and "error" not in r["eab"]:
             e = r["eab"]
             out.append(dict(e, kind="eabInner", nonce_issued=True, nonce_reused=False,
@@ -228,6 +237,7 @@ def flows(ctx, helper, root):
         elif sc["name"].startswith("rollover") and not any(x["kind"] == "keyChangeInner" for x in recs):
             ctx.broke("harness", "a roll-over scenario produced no keyChange request", {"sc": sc})
     ctx.traces += len(keep)
+    keychange.extend(ctx, helper, vlib.model, results)
     ctx.sample({"flow": keep[0][0]["sc"]["name"],
                 "first_records": [{k: v for k, v in x.items() if k != "_src"} for x in keep[0][1][:2]]})
 
@@ -257,7 +267,7 @@ def run(ctx):
 def replay(ctx):
     with open(ctx.replay) as f:
         r = json.load(f)
-    obj = r.get("replay", r)
+    obj = r.get("replay") or r.get("context") or r
     vlib.build_acmed()
     vlib.build_helper()
     helper = mockca.Helper()
@@ -269,9 +279,12 @@ def replay(ctx):
         recs = records_of(res["log"])
         v = vlib.model([{"op": "c04_judge", "log": [{k: v2 for k, v2 in x.items() if k != "_src"} for x in recs]}])[0]
         print(v)
+        keychange.extend(ctx, helper, vlib.model, [res])
+        for what, detail, _ in ctx.broken:
+            print(what, detail[:1000])
         shutil.rmtree(root, ignore_errors=True)
         helper.close()
-        return 0 if v["holds"] else 1
+        return 0 if v["holds"] and not ctx.broken else 1
     if "probe" in obj:
         i = vlib.probe([obj["probe"]])[0]
         print(i)
